@@ -135,3 +135,44 @@ Theorem C01_text_link :
          (exists a : ast, parse_text s = PAst a /\ front a = inr b /\ generate_tables (b_gi b) = inr t).
 Proof. exact EndToEndProofs.generate_text_ok. Qed.
 Print Assumptions C01_text_link.
+
+From YG Require Import LRBase CompleteDriver LR0Build Resolve Pipeline PipelineRun Front WfGrammar YParser EndToEnd FrontWf ParsedNames EndToEndWf.
+Close Scope Z_scope.
+Open Scope nat_scope.
+
+(* from the bytes of the grammar file, with no side condition: whenever the model of the whole generator delivers tables for a text, every token string its LR driver accepts has a derivation tree of the grammar object, whose yield is the string and whose reductions in reverse are what the driver performed (the well-formedness of the grammar object is proved, see C01_front_delivers_wellformed) *)
+Theorem C01_from_the_text :
+  forall (s : list Ascii.ascii) (b : built) (t : tables),
+         generate_text s = GOk b t ->
+         forall (fuel : nat) (w reds : list nat),
+         (forall a : nat, In a w -> a <> eof /\ a < gi_nsyms (b_gi b)) ->
+         run fuel (dense_action (length (t_aut t)) (t_dense t)) (gi_rules (b_gi b)) [(0, eof)] w [] = Acc reds ->
+         exists tr : tree,
+           valid (gi_rules (b_gi b)) tr /\
+           Some (root (gi_rules (b_gi b)) tr) = hd_error (rhs_of (gi_rules (b_gi b)) 0) /\
+           yield tr = w /\ post tr = reds.
+Proof. exact EndToEndWf.text_sound. Qed.
+Print Assumptions C01_from_the_text.
+
+From YG Require Import LRBase CompleteDriver LR0Build Resolve Pipeline PipelineRun Front WfGrammar YParser EndToEnd FrontWf ParsedNames EndToEndWf.
+Close Scope Z_scope.
+Open Scope nat_scope.
+
+(* every grammar object built from a text meets the well-formedness check of the back-end theorems (proved for every AST without a rule headed by a symbol called dollar: FrontWf.front_wf; no text parses to such an AST: ParsedNames.parse_text_lhs). The attempt to prove this found F26 *)
+Theorem C01_front_delivers_wellformed :
+  forall (s : list Ascii.ascii) (b : built) (t : tables),
+         generate_text s = GOk b t -> wf_gi (b_gi b) = true.
+Proof. exact EndToEndWf.text_wf. Qed.
+Print Assumptions C01_front_delivers_wellformed.
+
+From YG Require Import LRBase CompleteDriver LR0Build Resolve Pipeline PipelineRun Front WfGrammar YParser EndToEnd FrontWf ParsedNames EndToEndWf.
+Close Scope Z_scope.
+Open Scope nat_scope.
+
+(* the AST-level statement *)
+Theorem C01_front_wf_ast :
+  forall (a : ast) (b : built),
+         (forall r : ruledef, In r (a_rules a) -> r_lhs r <> dollar_name) ->
+         front a = inr b -> wf_gi (b_gi b) = true.
+Proof. exact FrontWf.front_wf. Qed.
+Print Assumptions C01_front_wf_ast.
